@@ -335,10 +335,6 @@ def run_num(case):
         Pset = productive(rules, V)
         all_productive = all(X in Pset for X in NT)
         for name, f in (("agenda", gl.agenda), ("naive_bottom_up", gl.naive_bottom_up)):
-            if not all_productive:
-                # Log.metric(zero, zero) is nan, so both evaluators only stop at their iteration caps
-                # (100000 rounds) when some nonterminal has total weight zero: correct but slow; skipped
-                continue
             have = _call(f)
             evals += 1
             bad = isinstance(have, str)
@@ -378,6 +374,23 @@ def run_num(case):
     return {"evals": evals, "nontrivial": nontriv, "fails": fails, "counters": {"executions": evals}}
 
 
+class SLog:
+    """The shipped Log semiring with a scheduler-controlled chart (values are genlm Log objects)."""
+
+    from genlm.grammar.semiring import Log as _L
+
+    zero = _L.zero
+    one = _L.one
+
+    @staticmethod
+    def metric(a, b):
+        return a.metric(b)
+
+    @classmethod
+    def chart(cls, *a, **k):
+        return SchedChart(cls, *a, **k)
+
+
 def run_sched(case):
     p = cfgp()
     rules = case_rules(case)
@@ -386,6 +399,39 @@ def run_sched(case):
     want = {X: table_total(enum_derivs(rules, X, V, Poly.D)) for X in NT}
     inp0 = {"rules": case["rules"]}
     fails = []
+    extra_exec = 0
+    # the same exploration over the shipped Log semiring (zero = -inf): every pop order must give the least solution
+    from genlm.grammar.semiring import Log
+
+    lw = [LOGW[i % len(LOGW)] for i in range(len(rules))]
+    try:
+        wantl = ref_totals([(LogRef(w), h, b) for w, (h, b) in zip(lw, rules)], V, LogRef, tol=1e-13, maxit=400)
+        if any(v.s > 10 for v in wantl.values()):
+            wantl = None
+    except (NoConvergence, OverflowError):
+        wantl = None
+    if wantl is not None:
+
+        def run_log():
+            g = gram.build(rules, SLog, [Log(w) for w in lw], V=V)
+            g.R = SLog
+            r = _call(lambda: g.agenda(maxiter=2000))
+            if isinstance(r, str):
+                return r
+            bad = []
+            for X in NT:
+                hs = r[X].score
+                ws = wantl[X].s if X in wantl else float("-inf")
+                if not (hs == ws or abs(hs - ws) <= 1e-9):
+                    bad.append((X, hs, ws))
+            return "ok" if not bad else repr(bad)
+
+        resl = es.explore(run_log, p["sched_bound"], max_exec=600)
+        extra_exec = resl["executions"]
+        badl = [(o, pf) for o, pf in resl["outcomes"].items() if o != "ok"]
+        if badl:
+            o, pf = badl[0]
+            fails.append(_fail("Log agenda result independent of pop order", dict(inp0, schedule=pf[0]), o, {k: v.s for k, v in wantl.items()}))
 
     def run():
         g = gram.build(rules, SPoly, gram.poly_weights(len(rules)), V=V)
@@ -406,7 +452,7 @@ def run_sched(case):
         "evals": 1,
         "nontrivial": int(want["S"] != Poly.zero),
         "fails": fails,
-        "counters": {"executions": res["executions"], "sched_executions": res["executions"], "max_sched_choice_points": res["choice_points"], "max_sched_branch": res["max_branch"], "sched_capped": int(res["capped"]), "sched_distinct_outcomes": len(res["outcomes"])},
+        "counters": {"executions": res["executions"] + extra_exec, "sched_executions": res["executions"] + extra_exec, "max_sched_choice_points": res["choice_points"], "max_sched_branch": res["max_branch"], "sched_capped": int(res["capped"]), "sched_distinct_outcomes": len(res["outcomes"])},
     }
 
 
